@@ -344,11 +344,14 @@ func cmdCheck(args []string) int {
 	// baseline
 	basePath := filepath.Join(verifDir, "baseline", prop+".json")
 	baseline := map[string]bool{}
+	baselineStems := map[string]bool{}
 	if data, err := os.ReadFile(basePath); err == nil {
 		var names []string
 		json.Unmarshal(data, &names)
 		for _, n := range names {
 			baseline[n] = true
+			// the same clause at a renumbered back edge or call site (control flow changed) is still that clause
+			baselineStems[obligationStem(n)] = true
 		}
 	}
 
@@ -402,7 +405,7 @@ func cmdCheck(args []string) int {
 				fmt.Printf("VIOLATION property=%s replay=%s%s\n", prop, path, replaySuffix(path))
 				exit = 1
 			}
-		} else if baseline[o.Name] || (o.Kind == "frame" && baseline[o.Fn+"/frame:(declared)"]) {
+		} else if baseline[o.Name] || baselineStems[obligationStem(o.Name)] || (o.Kind == "frame" && baseline[o.Fn+"/frame:(declared)"]) {
 			violations++
 			path := writeReplay(prop, o, r, W, "")
 			fmt.Printf("VIOLATION property=%s replay=%s%s\n", prop, path, replaySuffix(path))
